@@ -7,6 +7,8 @@
 
 #include "relay.h"
 
+#include <QFile>
+
 namespace {
 
 class FaultyBuffer : public CountingBuffer
@@ -35,5 +37,42 @@ protected:
         return CountingBuffer::writeData(data, len);
     }
 };
+
+// How the receiving application accepts the offer: "device" = accept(QIODevice*) with the buffer
+// above; otherwise accept(filePath) with a destination file that does not exist ("new") or already
+// holds an older file: "shorter" (half the size), "longer" (7000 bytes more), "same" (same size,
+// other content).  The oracle then reads the FILE back from disk.
+inline void prepareDestination(const QString &how, const QString &path, qint64 size, quint64 seed)
+{
+    QFile::remove(path);
+    if (how == "new") {
+        return;
+    }
+    const qint64 old = how == "shorter" ? size / 2 : (how == "longer" ? size + 7000 : size);
+    QFile f(path);
+    if (!f.open(QIODevice::WriteOnly)) {
+        fprintf(stderr, "ibb: cannot prepare %s\n", qPrintable(path));
+        exit(2);
+    }
+    f.write(randomBytes(old, seed ^ 0x0ddf11e5ULL));
+    f.close();
+}
+
+// what the destination holds now: the job's QFile is flushed first (the library keeps it open and
+// buffered until the job is deleted), then the file is read through a handle of our own
+inline QByteArray readDestination(QObject *job, const QString &path)
+{
+    if (job) {
+        const auto files = job->findChildren<QFile *>();
+        for (auto *f : files) {
+            f->flush();
+        }
+    }
+    QFile f(path);
+    if (!f.open(QIODevice::ReadOnly)) {
+        return QByteArray();
+    }
+    return f.readAll();
+}
 
 }  // namespace
